@@ -11,6 +11,7 @@ pub struct Entry {
     pub worker: Option<fn(&Ctx, WorkerCtx, &[String])>,
 }
 
+pub mod decoder_common;
 pub mod c01;
 pub mod c02;
 pub mod c03;
@@ -35,6 +36,8 @@ pub mod c20;
 /// Properties whose module exports `pub fn worker(&Ctx, WorkerCtx, &[String])`.
 fn worker_of(id: &str) -> Option<fn(&Ctx, WorkerCtx, &[String])> {
     match id {
+        "C02" => Some(c02::worker),
+        "C03" => Some(c03::worker),
         _ => None,
     }
 }
